@@ -2,6 +2,8 @@
 package yok
 
 import (
+    "strconv"
+
     "github.com/z7zmey/php-parser/pkg/ast"
     "github.com/z7zmey/php-parser/pkg/token"
 )
@@ -154,10 +156,19 @@ pair:
 leaf:
         T_A
             {
-                $$ = &ast.Leaf{
-                    Position: yylex.(*Parser).builder.NewTokenPosition($1),
-                    LeafTkn: $1,
-                    Value: $1.Value,
+                // ok (int-parse-decimal): numeric leaves are told apart by a decimal parse
+                if _, err := strconv.Atoi(string($1.Value)); err == nil {
+                    $$ = &ast.Leaf{
+                        Position: yylex.(*Parser).builder.NewTokenPosition($1),
+                        LeafTkn: $1,
+                        Value: $1.Value,
+                    }
+                } else {
+                    $$ = &ast.Leaf{
+                        Position: yylex.(*Parser).builder.NewTokenPosition($1),
+                        LeafTkn: $1,
+                        Value: $1.Value,
+                    }
                 }
             }
 ;
